@@ -405,11 +405,22 @@ def rule_lookup(ctx, F, rule2="R2", rule3="R3", ST=ST, SK=SK, floors=True):
         if r[0] != "agg" or r[3] != "Some":
             # None rows: nothing before the first frame, or index out of range
             i_gt0 = [v for (t, v, s) in p.conds if t[0] == "bin" and t[1] == "Lt" and t[2] == ("const", "usize", 0) and t[3] == I]
-            miss = [v for (t, v, s) in p.conds if t[0] == "discr" and t[1][0] == "call" and t[1][1].endswith("::get") and v == 0]
             empty = [v for (t, v, s) in p.conds if t[0] == "bin" and t[1] == "Eq" and t[2][0] == "len" and v == 1]
             i_lt1 = [v for (t, v, s) in p.conds if t[0] == "bin" and t[1] == "Lt" and t[2] == I and t[3] == ("const", "usize", 1)]
-            ok = (lt == 1 and (i_gt0 == [0] or i_lt1 == [1])) or bool(miss) or bool(empty) or \
-                any(t[0] == "discr" and v == 0 for (t, v, s) in p.conds)
+            last_dec = [v for (t, v, s) in p.conds if t[0] == "bin" and t[1] == "Eq" and t[2] == I and t[3][0] == "bin"
+                        and t[3][1] == "Sub" and t[3][2][0] == "len"]
+
+            def missing(K):
+                return any(t[0] == "discr" and t[1] == ("call", "core::slice::<impl [T]>::get", (("&", frames), K)) and v == 0
+                           for (t, v, s) in p.conds)
+            # legitimate reasons for "no value": the hint is out of range, there is no frame at the hinted index, the position
+            # lies before frame 0, or a neighbour is missing on a path that cannot happen (idx-1 with idx > 0 checked;
+            # idx+1 after `idx != last` was established).  A missing idx+1 alone is *not* one: that is the last frame, whose
+            # value must be held
+            ok = any(t[0] == "discr" and t[1] == gm[0] and v == 0 for (t, v, s) in p.conds) or bool(empty) or \
+                missing(I) or missing(("const", "usize", 0)) or \
+                (lt == 1 and (i_gt0 == [0] or i_lt1 == [1] or missing(Km1))) or \
+                (lt != 1 and missing(Kp1) and last_dec == [0])
             ctx.ob(rule2, lab + "/none-row", ok, "None is returned only when there is no bracketing frame", body["span"],
                    trace_of(p), what="spurious-none")
             continue
